@@ -7,6 +7,14 @@ HOOK_COMMITS = []
 
 # id -> (technique, level text, level note, design ref)
 CLAIMED = {
+ "C04": ("runtime monitor: scripted consistent peer (independent TCP codec) vs. one real socket; receiver model = bytes that arrived inside a window the socket advertised; every emitted ACK, every delivered byte and Finished are judged",
+         "Exploration by runtime monitoring: 20 000 (quick) / 600 000 (thorough) scripted conversations of 20..400 events: segments placed left of, overlapping, inside, behind a hole, overrunning, at and beyond the advertised right edge, with/without FIN, duplicates, arbitrary ACK numbers and windows, ISNs near 2^31/2^32, receive buffers 1 B..70 000 B with and without window scaling, interleaved with reads. The monitor keeps the set S of bytes that arrived inside a window the socket had put on the wire; delivered bytes must equal the peer's bytes and stay within the contiguous prefix of S; every ACK number <= that prefix (+1 for an in-order in-window FIN); Finished only after every byte before the FIN.",
+         "Trusted: harness/src/sim/tcp_peer.rs (receiver model, segment generator) and harness/src/indep (TCP/IP builder+parser). 'Advertised window' is the highest right edge ever put on the wire (weakest sound reading).",
+         "DESIGN.md §4 C04"),
+ "C17": ("runtime monitor: one event at a time (one injected segment, one egress pass with a time step, or one API call) with state() before/after, judged against an explicit table of permitted RFC 9293 edges whose guards are computed from the monitor's own bookkeeping",
+         "Exploration by runtime monitoring: the scripted-peer simulation in state-machine focus (more RSTs, closes, aborts, ACK numbers around ISS / SND.UNA / SND.NXT / FIN+1 / beyond), 20 000 quick / 600 000 thorough conversations. Every state change must be an edge of the RFC 9293 diagram caused by the prescribed event: ESTABLISHED only on ack==ISS+1, CLOSE-WAIT/CLOSING/TIME-WAIT only on an in-order in-window FIN, FIN-WAIT-2 / LAST-ACK->CLOSED / CLOSING->TIME-WAIT only on ack==own FIN+1, resets only by an RST whose sequence number is inside the advertised window (or the expected RST|ACK in SYN-SENT), TIME-WAIT ends by its 10 s timer and only by it. Evidence lists the distinct (state,event,next) edges observed and the number of forbidden-edge attempts exercised.",
+         "Trusted: the transition table and event classification in harness/src/sim/tcp_peer.rs. Unchanged states are never judged. close() in SYN-RECEIVED is a recorded defect (known_findings.json); runs containing it are attributed to it.",
+         "DESIGN.md §4 C17"),
  "C06": ("runtime monitor: seeded generators for every wire Repr type; emit into zero/0xFF/garbage buffers of the declared length, parse back and compare; mutated-but-parsable packets re-emitted and re-parsed",
          "Exploration by runtime monitoring: 28 wire representation types (Ethernet ... 6LoWPAN fragments), ~2*10^5 (quick) / ~1.4*10^7 (thorough) generated values with boundary-biased fields; three passes per value (buffer independence + no panic, parse(emit(r)) == r, and parse(emit(parse(mutant))) == parse(mutant)). Every domain restriction applied by the generators is listed in the evidence file's assumptions.",
          "Trusted: the generators and structural diff in harness/src/gen/wire.rs and harness/src/mon/c06.rs; smoltcp's own fill_checksum is used to keep mutants parsable. Known findings (IPHC traffic-class/flow-label never emitted, 802.15.4 layouts emit does not implement, truncated ICMPv4/NDISC quotes) are listed in known_findings.json by exact signature.",
